@@ -105,6 +105,16 @@ theorem emit_faults (o o' : Oracle) (s s' : St) (a b : Nat) (e : Err) (h : emit 
   repeat' split at h
   all_goals (cases h; grind)
 
+theorem inst_faults (o o' : Oracle) (s s' : St) (a b : Nat) (e : Err) (h : inst o s a b = (o', s', e)) : Acct o o' e := by
+  unfold inst at h
+  repeat' split at h
+  all_goals (cases h; grind)
+
+theorem jmpf_faults (o o' : Oracle) (s s' : St) (a : Nat) (e : Err) (h : jmpf o s a = (o', s', e)) : Acct o o' e := by
+  unfold jmpf at h
+  repeat' split at h
+  all_goals (cases h; grind)
+
 theorem vappend_faults (o o' : Oracle) (s s' : St) (x : Nat) (e : Err) (h : vappend o s x = (o', s', e)) : Acct o o' e := by
   unfold vappend at h
   repeat' split at h
@@ -169,6 +179,8 @@ theorem step_faults (op : Op) (o o' : Oracle) (s s' : St) (e : Err) (h : step op
   case freeFixup => exact freeFixup_faults _ _ _ _ _ h
   case addAddr a => exact addAddr_faults _ _ _ _ _ _ h
   case emit a b => exact emit_faults _ _ _ _ _ _ _ h
+  case inst a b => exact inst_faults _ _ _ _ _ _ _ h
+  case jmpf a => exact jmpf_faults _ _ _ _ _ _ h
   case vappend x => exact vappend_faults _ _ _ _ _ _ h
   case vreserve n => exact vreserve_faults _ _ _ _ _ _ h
   case sappend n c => exact sappend_faults _ _ _ _ _ _ _ h
@@ -186,6 +198,8 @@ theorem step_ref (op : Op) (o o' : Oracle) (s s' : St) (e : Err) (h : step op o 
   case freeFixup => exact freeFixup_ref _ _ _ _ _ h he
   case addAddr a => exact addAddr_ref _ _ _ _ _ _ h he
   case emit a b => exact emit_ref _ _ _ _ _ _ _ h he
+  case inst a b => exact inst_ref _ _ _ _ _ _ _ h he
+  case jmpf a => exact jmpf_ref _ _ _ _ _ _ h he
   case vappend x => exact vappend_ref _ _ _ _ _ _ h he
   case vreserve n => exact vreserve_ref _ _ _ _ _ _ h he
   case sappend n c => exact sappend_ref _ _ _ _ _ _ _ h he
